@@ -164,6 +164,19 @@ fn deep_rescale(out: &mut Out, r: &mut Rng, thorough: bool) {
         let nf = n as f64; let lgf = (n.trailing_zeros()) as f64;
         let qmax = *qs[..qs.len() - 1].iter().max().unwrap() as f64;
         let bks = (21.0 * nf * (qs.len() - 1) as f64 * (qmax / p_special as f64).ceil() + nf + 2.0) * (lgf + 2.0);
+        // scale bookkeeping of rescale on ARBITRARY scales (random mantissas): the recorded scale must be the correctly rounded quotient
+        // scale / q_last whatever the scale is (the ciphertext data plays no role in this rule; scales arising naturally in short programs
+        // are too structured to separate, e.g., `s / q` from `s * (1 / q)`)
+        { let base = s.encryptor.encrypt_new(&enc.encode_c64_array_new(&v, None, 2f64.powi(sb)));
+          let ql = *qs[..qs.len() - 1].last().unwrap() as f64;
+          for _ in 0..12 {
+              let mant = 1.0 + (r.below(1u64 << 52) as f64) / (1u64 << 52) as f64;
+              let sc = mant * 2f64.powi(r.range(10, 40) as i32) * ql;
+              let mut c = base.clone(); c.set_scale(sc);
+              if let Ok(res) = std::panic::catch_unwind(std::panic::AssertUnwindSafe(|| ev.rescale_to_next_new(&c))) {
+                  out.case(&format!("ckks_switch rescale {} {} 1 {} | {}", bits(&c), bits(&res), s.ct_case(&c), s.ct_case(&res)), "deep-rescale-random-scale", || "ok".to_string());
+              }
+          } }
         let mut cur = Item { ct: s.encryptor.encrypt_new(&enc.encode_c64_array_new(&v, None, 2f64.powi(sb))), v, eb: nf * (21.0 * (2.0 * nf + 1.0) + 1.0) / 2f64.powi(sb) };
         loop {
             let cd = s.ctx.get_context_data(cur.ct.parms_id()).unwrap();
